@@ -35,6 +35,8 @@ package executor
 
 //@ func (*DefaultExecutor).Execute
 //@   ghostlocal tctx context.Context
+//@   ghostlocal off int
+//@   ghostlocal full int
 //@   requires e != nil && e.interp != nil && job != nil && job.Vars != nil && job.Env != nil
 //@   modifies runN, runJob, runErr, job.Dir, e.*, interp.Runner.Dir, interp.Runner.Env, bufLen
 //@   ensures e.interp == old(e.interp)
@@ -54,6 +56,13 @@ package executor
 //@     ghost runJob[runN] = job
 //@     ghost runErr[runN] = result
 //@     ghost runN = runN + 1
+//@   callsite Len
+//@     requires #C11.offset-taken-before-the-run calls(Run) == 0
+//@     ghost off = result
+//@   callsite Bytes
+//@     requires #C11.output-read-after-the-run calls(Run) == 1 && calls(Len) == 1
+//@     ghost full = len(result)
+//@   ensures #C11.returns-what-this-run-wrote runN == old(runN) + 1 ==> calls(Bytes) == 1 && len(result) == full - off
 //@   callsite funcvalue:cancelFn
 //@     assume true // context.CancelFunc: releases the timer; no effect on modelled state
 //@   ensures #at-most-one-run (runN == old(runN) && result#1 != nil && !exitOK(result#1)) || (runN == old(runN) + 1 && runJob[old(runN)] == job && runErr[old(runN)] == result#1)
